@@ -758,6 +758,7 @@ class Gen:
             self.w["load"] = 0
             self.w["save"] = 0
         self.seen = {0: [], 1: [], 2: []}
+        self.present = []            # optimistic guess of the p rules in memory (bias for update / remove targets)
         # clear_policy empties memory only; until the next save_policy the adapter still holds the old rows and
         # a reload would bring them back (and auto-saved adds would be stored twice).  That is documented casbin
         # behaviour, not a property violation, so no reload is generated while the adapter is stale.
@@ -877,20 +878,39 @@ class Gen:
         names = [n for n, w in self.w.items() if w > 0 and n not in ("short_g", "long_g")]
         n = rng.choices(names, weights=[self.w[x] for x in names])[0]
         if n == "p_add":
-            return [(1, 0, self.rule(0))]
+            r = self.rule(0)
+            if r not in self.present:
+                self.present.append(r)
+            return [(1, 0, r)]
         if n == "p_add_many":
-            return [(2, 0, self.batch(0))]
+            b = self.batch(0)
+            if all(r not in self.present for r in b) and len({tuple(r) for r in b}) == len(b):
+                self.present.extend(b)
+            return [(2, 0, b)]
         if n == "p_remove":
-            return [(3, 0, self.rule(0))]
+            r = list(rng.choice(self.present)) if (self.present and rng.random() < 0.4) else self.rule(0)
+            if r in self.present:
+                self.present.remove(r)
+            return [(3, 0, r)]
         if n == "p_remove_many":
-            return [(4, 0, self.batch(0))]
+            b = self.batch(0)
+            if all(r in self.present for r in b) and len({tuple(r) for r in b}) == len(b):
+                for r in b:
+                    self.present.remove(r)
+            return [(4, 0, b)]
         if n == "p_remove_filtered":
             i, vs = self.filt(0)
+            self.present = []            # unknown afterwards
             return [(5, 0, i, vs)]
         if n == "p_update":
-            o, nw = self.rule(0), self.rule(0)
+            # an update is only interesting on a rule that is (probably) present: half of the time the target is one
+            # added through the API earlier in this history (its position may have moved since)
+            o = list(rng.choice(self.present)) if (self.present and rng.random() < 0.5) else self.rule(0)
+            nw = self.rule(0)
             if self.kind.prio and rng.random() < 0.6:
                 nw = [o[0]] + nw[1:]          # same priority: the update is admissible on a priority model
+            if o in self.present and nw not in self.present:
+                self.present[self.present.index(o)] = nw
             return [(6, o, nw)]
         if n == "p_update_many":
             a = self.batch(0)
@@ -972,6 +992,8 @@ class Gen:
                 seen.add(key)
                 rows.append((pt, r))
                 self.seen[pt].append(r)
+                if pt == 0:
+                    self.present.append(r)
         return rows
 
 
